@@ -180,6 +180,46 @@ def run_pkg(case, base, root):
     return {'session': [results[i] for i in range(len(case['loads']))]}
 
 
+def run_multi(case, base, root):
+    """several DIFFERENT packages loaded one after the other in this process, in the order of this process (another
+    process starts with another package): what a package loads into must not depend on what was loaded before"""
+    results = {}
+    for i in case['pkg_order']:
+        b = os.path.join(base, 'k%d' % i)
+        os.makedirs(b)
+        results[i] = run_pkg(case['packages'][i], b, root)
+    return {'packages': [results[i] for i in range(len(case['packages']))]}
+
+
+def process_state():
+    """the mutable containers (list / dict / set) that are module globals or class attributes of the four anchored
+    modules: a process is modelled WITHOUT state, so a load must leave them as it found them"""
+    import importlib
+    out = {}
+    for mn in ('experiment.model.frontends.flowir', 'experiment.model.frontends.dsl', 'experiment.model.conf',
+               'experiment.model.graph'):
+        try:
+            mod = importlib.import_module(mn)
+        except Exception:
+            continue
+
+        def put(name, val):
+            try:
+                out[name] = json.dumps(canon(val, '\0'), sort_keys=True, default=repr)
+            except Exception as e:
+                out[name] = 'unprintable ' + type(e).__name__
+        for name, obj in list(vars(mod).items()):
+            if name.startswith('__'):
+                continue
+            if isinstance(obj, (list, dict, set)):
+                put('%s.%s' % (mn, name), obj)
+            elif isinstance(obj, type) and getattr(obj, '__module__', None) == mn:
+                for an, av in list(vars(obj).items()):
+                    if not an.startswith('__') and isinstance(av, (list, dict, set)):
+                        put('%s.%s.%s' % (mn, name, an), av)
+    return out
+
+
 def one_pkg_load(case, pkg, base, root, given_names):
     import experiment.model.storage as S
     import experiment.model.data as D
@@ -225,6 +265,14 @@ def one_pkg_load(case, pkg, base, root, given_names):
         res['memoization'] = hashes
         res['platform_variables'] = conc.get_platform_variables()
         res['flowir_environments'] = conc.get_environments()
+        # FlowIR.from_dict normalises the environment names of EVERY platform, not just the active one
+        every = {}
+        for plat in sorted(conc.platforms):
+            try:
+                every[plat] = conc.get_environments(plat)
+            except Exception as e:
+                every[plat] = 'raise ' + type(e).__name__
+        res['flowir_environments_every_platform'] = every
         res['top_level_folders'] = sorted(exp.configuration.top_level_folders)
         inst = exp.instanceDirectory.location
         res['instance_conf'] = sorted(os.listdir(os.path.join(inst, 'conf')))
@@ -433,13 +481,15 @@ def main():
     if not os.environ.get('C15_NO_LISTING_ORDER'):
         install_listing_order(job.get('variant', 0))
     out = []
+    state_before = process_state()
     try:
         for i, case in enumerate(job['cases']):
             base = os.path.join(root, 'c%d' % i)
             os.makedirs(base)
             os.chdir(root)      # the working directory of the previous case is gone
             try:
-                runner = {'vars': run_vars, 'pkg': run_pkg, 'cfg': run_cfg, 'inst': run_inst}[case['kind']]
+                runner = {'vars': run_vars, 'pkg': run_pkg, 'cfg': run_cfg, 'inst': run_inst,
+                          'multi': run_multi}[case['kind']]
                 r = runner(case, base, root + '/c%d' % i)
             except Exception as e:  # machinery error: reported as such
                 r = {'harness_error': type(e).__name__ + ': ' + str(e)[:300], 'trace': traceback.format_exc()[-1500:]}
@@ -448,7 +498,10 @@ def main():
     finally:
         os.chdir('/')
         shutil.rmtree(root, ignore_errors=True)
-    json.dump({'seed': os.environ.get('PYTHONHASHSEED'), 'dumps': out}, open(out_path, 'w'))
+    state_after = process_state()
+    changed = {k: [state_before.get(k), state_after.get(k)] for k in sorted(set(state_before) | set(state_after))
+               if state_before.get(k) != state_after.get(k)}
+    json.dump({'seed': os.environ.get('PYTHONHASHSEED'), 'dumps': out, 'state_changed': changed}, open(out_path, 'w'))
     sys.stdout.flush()
     os._exit(0)
 
